@@ -94,6 +94,8 @@ func worker() {
 type rawScenario struct {
 	Mode   string            `json:"mode"`
 	Cfg    string            `json:"cfg"`
+	Sess   *Sess             `json:"sess"`
+	Life   string            `json:"life"`
 	Helper string            `json:"helper"`
 	Setup  int               `json:"setup"`
 	Items  []json.RawMessage `json:"items"`
@@ -136,10 +138,28 @@ func addRandom(scs []Scenario, n, k int, seed int64) []Scenario {
 		labs = append(labs, l)
 	}
 	sort.Strings(labs)
+	// the session identities the emitted scenarios use (Sessions of tla/PeerInput.tla)
+	seen := map[Sess]bool{}
+	var sessions []Sess
+	for _, sc := range scs {
+		x := defaultSess
+		if sc.Sess != nil {
+			x = *sc.Sess
+		}
+		if !seen[x] {
+			seen[x] = true
+			sessions = append(sessions, x)
+		}
+	}
+	sort.Slice(sessions, func(i, j int) bool { return sessions[i].String() < sessions[j].String() })
 	rng := rand.New(rand.NewSource(seed ^ 0x5eed))
 	for i := 0; i < n; i++ {
-		// in either configuration of the handler table
+		// in either configuration of the handler table, on a session of any identity
 		sc := Scenario{Mode: "seq", Cfg: []string{"listen", "zero"}[rng.Intn(2)]}
+		if len(sessions) > 0 {
+			x := sessions[rng.Intn(len(sessions))]
+			sc.Sess = &x
+		}
 		for j := 0; j < k; j++ {
 			l := labs[rng.Intn(len(labs))]
 			sc.Items = append(sc.Items, Item{Lab: l, Who: "peer", Node: alpha[l]})
@@ -170,7 +190,7 @@ func loadScenarios(alphabet string, files []string) []Scenario {
 			if err := json.Unmarshal(b, &rs); err != nil {
 				die("%s: %v", f, err)
 			}
-			sc := Scenario{Mode: rs.Mode, Cfg: rs.Cfg, Helper: rs.Helper, Setup: rs.Setup, Cut: rs.Cut}
+			sc := Scenario{Mode: rs.Mode, Cfg: rs.Cfg, Sess: rs.Sess, Life: rs.Life, Helper: rs.Helper, Setup: rs.Setup, Cut: rs.Cut}
 			for _, ri := range rs.Items {
 				var lab string
 				if json.Unmarshal(ri, &lab) == nil {
@@ -326,6 +346,12 @@ func crashResult(sc Scenario, crash string) Result {
 	if crash == hungMarker {
 		return Result{ID: sc.ID, Events: []vt.Ev{{"ev": "driver_error"}}, Detail: map[string]string{"driver": hungMarker}}
 	}
+	// (the process died after the session had been made: what was observed of it is lost with
+	// the process; the crash is what the trace tells)
+	sess := defaultSess
+	if sc.Sess != nil {
+		sess = *sc.Sess
+	}
 	// keep the head of the crash report (panic value and the first frames)
 	ls := strings.Split(crash, "\n")
 	var keep []string
@@ -338,7 +364,7 @@ func crashResult(sc Scenario, crash string) Result {
 			break
 		}
 	}
-	return Result{ID: sc.ID, Bad: "PANIC",
+	return Result{ID: sc.ID, Bad: "PANIC", OAddr: sess.Addr, OLocal: sess.local(),
 		Events: []vt.Ev{{"ev": "crash", "out": "PANIC"}},
 		Detail: map[string]string{"crash": "the process died of a panic in a goroutine started by the library:\n" + strings.Join(keep, "\n")}}
 }
@@ -547,7 +573,14 @@ func supervise(alphabet, tracePath string, files []string) {
 		if sc.Mode == "reply" {
 			napp = 1
 		}
-		tw.Write(vt.Ev{"mode": sc.Mode, "cfg": sc.Cfg, "setup": sc.Setup, "n": len(sc.Items), "napp": napp}, res.Events)
+		sess, life := defaultSess, sc.Life
+		if sc.Sess != nil {
+			sess = *sc.Sess
+		}
+		if life == "" {
+			life = "fresh"
+		}
+		tw.Write(vt.Ev{"mode": sc.Mode, "cfg": sc.Cfg, "kind": sess.Kind, "addr": sess.Addr, "life": life, "oaddr": res.OAddr, "olocal": res.OLocal, "setup": sc.Setup, "n": len(sc.Items), "napp": napp}, res.Events)
 		tw.Meta(map[string]interface{}{"scenario": sc, "labels": labs, "detail": res.Detail, "bad": res.Bad})
 		for _, e := range res.Events {
 			if o, ok := e["out"].(string); ok {
